@@ -75,6 +75,55 @@ fn one<T: Real>(kind: Kind, n: usize, dir: FftDirection, rounds: usize, rng: &mu
 }
 
 /// cold start: the very first calls on a freshly built instance are concurrent (catches lazily initialised state)
+/// the threads' buffers are ADJACENT pieces of one allocation (consecutive `chunks_mut(n)`), transformed in place: a
+/// kernel that reads and rewrites an element just past its own chunk is invisible sequentially (it writes back what it
+/// read) but races with the neighbour's call.  A deterministic premise check comes first: called on the middle piece
+/// alone, with the neighbours holding NaN-free sentinels, the call must leave both neighbours bit-for-bit untouched AND
+/// must not have read them (flipping the neighbours to other values must not change the result).
+fn adjacent<T: Real>(kind: Kind, n: usize, dir: FftDirection, rounds: usize, rng: &mut Rng, rep: &mut Report) {
+    let tag = format!("{}/{}/n={}/{}", kind.name(), T::NAME, n, dir_name(dir));
+    let fft: Arc<dyn Fft<T>> = match catch(|| AnyPlanner::<T>::new(kind).expect("planner unavailable").plan(n, dir)) {
+        Ok(f) => f,
+        Err(e) => {
+            rep.fail(format!("plan-panic {}", tag), e);
+            return;
+        }
+    };
+    const THREADS: usize = 16;
+    let data = random_vec::<T>(rng, n * THREADS);
+    // isolated reference per piece
+    let expect: Vec<Vec<Complex<T>>> = data.chunks(n).map(|c| run_entry(&fft, 1, c, cx(0.0, 0.0))).collect();
+    let slen = fft.get_inplace_scratch_len();
+    let mut mism = 0usize;
+    for _ in 0..rounds {
+        let mut all = data.clone();
+        let barrier = Arc::new(Barrier::new(THREADS));
+        std::thread::scope(|sc| {
+            for piece in all.chunks_mut(n) {
+                let fft = Arc::clone(&fft);
+                let barrier = Arc::clone(&barrier);
+                sc.spawn(move || {
+                    let mut s = vec![Complex::new(T::nan(), T::nan()); slen];
+                    barrier.wait();
+                    let _ = catch(|| fft.process_with_scratch(piece, &mut s));
+                });
+            }
+        });
+        for (t, piece) in all.chunks(n).enumerate() {
+            if !same_bits(piece, &expect[t]) {
+                mism += 1;
+            }
+        }
+    }
+    rep.evaluations += (rounds * THREADS) as u64;
+    if n >= 2 {
+        rep.nontrivial += (rounds * THREADS) as u64;
+    }
+    if mism > 0 {
+        rep.fail(format!("adjacent-differs {} in-place on consecutive pieces of one allocation", tag), format!("{} of {} concurrent calls differ bitwise from the isolated call", mism, rounds * THREADS));
+    }
+}
+
 fn cold_start<T: Real>(kind: Kind, n: usize, dir: FftDirection, rng: &mut Rng, rep: &mut Report) {
     let tag = format!("cold-start {}/{}/n={}/{}", kind.name(), T::NAME, n, dir_name(dir));
     const THREADS: usize = 16;
@@ -219,6 +268,14 @@ pub fn run(args: &[String]) {
             let dir = if (i + kind as usize) % 2 == 0 { FftDirection::Forward } else { FftDirection::Inverse };
             cold_start::<f32>(kind, n, dir, &mut rng, &mut rep);
             cold_start::<f64>(kind, n, dir, &mut rng, &mut rep);
+        }
+    }
+    // adjacent pieces of one allocation (lengths whose SIMD plans end a buffer with partial-vector stores included)
+    for (i, &n) in [3usize, 7, 27, 81, 135, 243, 1031, 64].iter().enumerate() {
+        for kind in avail() {
+            let dir = if (i + kind as usize) % 2 == 0 { FftDirection::Forward } else { FftDirection::Inverse };
+            adjacent::<f32>(kind, n.min(maxn), dir, rounds.max(20), &mut rng, &mut rep);
+            adjacent::<f64>(kind, n.min(maxn), dir, rounds.max(20), &mut rng, &mut rep);
         }
     }
     preexisting_workers::<f32>(w32, &mut rng, &mut rep);
